@@ -49,6 +49,24 @@ func errPropagated(fn *ssa.Function, errv ssa.Value) bool {
 	if errv == nil {
 		return false
 	}
+	// handed on as it is: `return helper(...)`
+	direct, other := false, false
+	for _, r := range ssau.Referrers(errv) {
+		switch x := r.(type) {
+		case *ssa.Return:
+			if len(x.Results) > 0 && x.Results[len(x.Results)-1] == errv {
+				direct = true
+			} else {
+				other = true
+			}
+		case *ssa.DebugRef:
+		default:
+			other = true
+		}
+	}
+	if direct && !other {
+		return true
+	}
 	found := false
 	for _, b := range fn.Blocks {
 		iff, ok := b.Instrs[len(b.Instrs)-1].(*ssa.If)
@@ -693,7 +711,7 @@ func C13(c *Ctx) {
 		// every return that hands out a *core.Spec / Specter derived from those allocs must be dominated by a Compile call with its error checked
 		var compiles []*ssa.Call
 		ssau.Instrs(f, func(in ssa.Instruction) {
-			if cl, ok := in.(*ssa.Call); ok && cl.Common().StaticCallee() == compile {
+			if cl, ok := in.(*ssa.Call); ok && (cl.Common().StaticCallee() == compile || compileWrapper(cl.Common().StaticCallee(), compile)) {
 				compiles = append(compiles, cl)
 			}
 		})
@@ -916,4 +934,49 @@ func c13Decoders(c *Ctx) {
 		}
 	}
 	c.R.Check(both == "", "C13-R6", "ResolveSpecSource: one decoder per body", at, "the JSON and the YAML decode are on different paths", "a body decoded as JSON also goes through the YAML decoder ("+both+")")
+}
+
+// compileWrapper: h calls Spec.Compile once and answers nil only when that call did: every return hands on the
+// call's own error or an error made on the spot.
+func compileWrapper(h, compile *ssa.Function) bool {
+	if h == nil || h.Blocks == nil || h == compile {
+		return false
+	}
+	res := h.Signature.Results()
+	if res.Len() == 0 || !types.Identical(res.At(res.Len()-1).Type(), types.Universe.Lookup("error").Type()) {
+		return false
+	}
+	var cc []*ssa.Call
+	ssau.Instrs(h, func(in ssa.Instruction) {
+		if cl, ok := in.(*ssa.Call); ok && cl.Common().StaticCallee() == compile {
+			cc = append(cc, cl)
+		}
+	})
+	if len(cc) != 1 {
+		return false
+	}
+	for _, b := range h.Blocks {
+		ret, ok := b.Instrs[len(b.Instrs)-1].(*ssa.Return)
+		if !ok {
+			continue
+		}
+		if !cc[0].Block().Dominates(b) {
+			return false
+		}
+		for _, d := range phiDefs(ret.Results[len(ret.Results)-1], nil, map[ssa.Value]bool{}) {
+			if d == ssa.Value(cc[0]) {
+				continue
+			}
+			if cl, isC := d.(*ssa.Call); isC {
+				if n := ssau.CalleeName(cl); n == "errors.New" || n == "fmt.Errorf" {
+					continue
+				}
+			}
+			if ssau.IsNilConst(d) && errChecked(h, cc[0], b) {
+				continue
+			}
+			return false
+		}
+	}
+	return true
 }
